@@ -35,8 +35,11 @@ pub struct BlockSpec {
 }
 
 pub fn miner_lock(miner: u8) -> Script {
-    // always-success lock with distinguishing args so that rewards are attributable
-    always_success_lock().as_builder().args(Bytes::from(vec![miner]).pack()).build()
+    // always-success lock with distinguishing args so that rewards are attributable; miners 240.. use
+    // 700 bytes of args (a cell locked by them needs 741 CKB: worlds with a small block reward
+    // reach the "reward too small to create the cell" branch)
+    let args = if miner >= 240 { vec![miner; 700] } else { vec![miner] };
+    always_success_lock().as_builder().args(Bytes::from(args).pack()).build()
 }
 
 pub fn build_cellbase(snapshot: &Snapshot, miner: u8) -> Result<TransactionView, String> {
@@ -56,6 +59,12 @@ pub fn build_cellbase(snapshot: &Snapshot, miner: u8) -> Result<TransactionView,
 
 /// Assemble a block on top of `snapshot`'s tip.
 pub fn assemble(snapshot: &Snapshot, spec: &BlockSpec) -> Result<BlockView, String> {
+    assemble_with(snapshot, spec, None)
+}
+
+/// `assemble` with a given cellbase (candidates that break the reward rule and nothing else: the
+/// DAO field is computed for the block as it is)
+pub fn assemble_with(snapshot: &Snapshot, spec: &BlockSpec, cellbase: Option<TransactionView>) -> Result<BlockView, String> {
     let consensus = snapshot.consensus();
     let tip = snapshot.tip_header();
     let number = tip.number() + 1;
@@ -63,7 +72,10 @@ pub fn assemble(snapshot: &Snapshot, spec: &BlockSpec) -> Result<BlockView, Stri
         .next_epoch_ext(tip, &snapshot.borrow_as_data_loader())
         .ok_or("next_epoch_ext")?
         .epoch();
-    let cellbase = build_cellbase(snapshot, spec.miner)?;
+    let cellbase = match cellbase {
+        Some(c) => c,
+        None => build_cellbase(snapshot, spec.miner)?,
+    };
     let mut all = vec![cellbase];
     all.extend(spec.txs.iter().cloned());
     let provider = TransactionsProvider::new(all.iter());
@@ -198,6 +210,15 @@ impl Forge {
         self.goto(parent)?;
         let snap = self.node().shared.snapshot();
         let b = assemble(&snap, spec)?;
+        self.known.insert(b.hash(), b.clone());
+        Ok(b)
+    }
+
+    /// `build_on` with a given cellbase
+    pub fn build_on_with_cellbase(&mut self, parent: &packed::Byte32, spec: &BlockSpec, cellbase: TransactionView) -> Result<BlockView, String> {
+        self.goto(parent)?;
+        let snap = self.node().shared.snapshot();
+        let b = assemble_with(&snap, spec, Some(cellbase))?;
         self.known.insert(b.hash(), b.clone());
         Ok(b)
     }
